@@ -1142,7 +1142,14 @@ def lines_e2e_cde(cases, workdir, stream, binary):
                 for rooms_ in (None, big):
                     if os.path.exists(outp17):
                         os.remove(outp17)
-                    rcx, sox, sex, tox = run_bin(binary, cde_args(c["opts"], rooms_, 1) + prf + [inp, outp17])
+                    a17 = cde_args(c["opts"], rooms_, 1)
+                    if rooms_ is not None and i % 2 == 0:
+                        # the same list as a rooms FILE: two kinds of the same capacity (still as many rooms as courses)
+                        k1 = (len(big) + 1) // 2
+                        json.dump([{"name": "Halle", "capacity": big[0], "quantity": k1}, {"name": "Zelt", "capacity": big[0], "quantity": len(big) - k1}],
+                                  open(os.path.join(d, "rooms17.json"), "w"))
+                        a17 = cde_args(c["opts"], None, 1) + ["--rooms-file", os.path.join(d, "rooms17.json")]
+                    rcx, sox, sex, tox = run_bin(binary, a17 + prf + [inp, outp17])
                     filex = None
                     if rcx == 0:
                         try:
